@@ -85,6 +85,10 @@ def main(tier):
     # directed: broadcast (expanded, stride-0) quantized activations on the integer GEMM routes
     cases.append({"id": len(cases), "seed": 11, "op": "linear", "dtype": "float32", "act": "qint8", "wq": "qint8", "lead": [24], "in": 32, "out": 16, "bias": False, "layout": "expanded", "exact": False})
     cases.append({"id": len(cases), "seed": 12, "op": "mm", "dtype": "float32", "n": 24, "m": 32, "p": 16, "batch": 2, "aq": "qint8", "a_q": True, "b_q": True, "layout": "expanded"})
+    # directed: per-tensor weights (one scalar scale) incl. wide outputs (> 256 features) on the float fallback routes
+    for k, (wq_, act_, outf_) in enumerate([("qint8", "float", 300), ("qfloat8_e4m3fn", "float", 512), ("qint8", "qfloat8_e4m3fn", 260), ("qfloat8_e5m2", "qint8", 33), ("qint8", "qint8", 300)]):
+        cases.append({"id": len(cases), "seed": 30 + k, "op": "linear", "dtype": ["float32", "float16", "bfloat16"][k % 3] if act_ != "float" or wq_ != "qint8" else "float32", "act": act_, "wq": wq_, "lead": [3], "in": 32, "out": outf_, "bias": k % 2 == 0,
+                      "per_tensor_weight": True, "exact": False})
     # directed: operands of torch.mm quantized per-axis, along the contracted and the non-contracted dimensions, on the integer GEMM sizes
     for k, (aa, ba) in enumerate([(None, 0), (None, -1), (0, None), (-1, None), (0, -1), (-1, 0)]):
         cases.append({"id": len(cases), "seed": 20 + k, "op": "mm", "dtype": "float32", "n": 24, "m": 24 if k % 2 == 0 else 32, "p": 16, "batch": 2, "aq": "qint8", "a_q": True, "b_q": True, "a_axis": aa, "b_axis": ba})
@@ -163,6 +167,8 @@ def main(tier):
 
         if r.get("reused_input_ok") is False and not (c["op"] == "linear" and dtype == "bfloat16" and c.get("act") == "float" and c.get("wq") == "qint8" and K % 4 == 0 and K % 16 != 0):
             ck.violation("F.linear fed the same activation object again after an in-place update returns something else than for a fresh tensor holding the same values", {"case": cfg})
+        if r.get("reused_weight_ok") is False:
+            ck.violation("F.linear with a weight object whose codes and scales were overwritten in place (copy_) differs from the product with a fresh weight holding the same codes (stale copy keyed by object identity)", {"case": cfg})
         if r.get("result_stable") is False:
             if c["op"] == "linear" and dtype == "bfloat16" and c.get("act") == "float" and c.get("wq") == "qint8" and K % 4 == 0 and K % 16 != 0:
                 # F14: the int8-pack kernel reads past unaligned rows; when it does not crash its result is garbage that changes from call to call
